@@ -1,15 +1,309 @@
 /-
-C01 — Benchmark records survive a write/read round trip. Property theorems.
+C01 — Benchmark records survive a write/read round trip.
+Property theorems (helpers are in Proofs/Lemmas/C01*.lean; the reader model and its refinement
+theorem come from C02).
+
+Vocabulary
+* `Writer.writeAll P h`   the lines the model writer prints for history `h`; `render` = the bytes
+* `readAll O fn text`     the C02 model reader (all records `Scan` delivers)
+* `observe`, `WF`, …      `Model/Spec/RoundTrip.lean`
+* `Obs.abs`               an observation with its file map read as a function (two `Config` lists
+                          that denote the same map are the same observation)
+* `NumOK O P`             the one hypothesis on number text: printing then parsing gives the number
+                          back and a printed number is one field (`%v`/`atof`, `%d`/`Atoi`)
 -/
 import Model.Fmt.Writer
 import Model.Spec.RoundTrip
 import Proofs.C02
+import Proofs.Lemmas.C01Clean
 
 namespace C01
-open Fmt Spec.RoundTrip
+open Fmt Spec.Format Spec.RoundTrip
 
-/-- placeholder while the cycle is brought up -/
-theorem write_err_silent (P : WParams) (w : WState) (e : SyntaxErr) :
-    Writer.write P w (.err e) = (w, []) := rfl
+/-! ## 1. The writer state tracks the configuration (no assumption on any reader) -/
+
+/-- some parameters, to instantiate statements that do not depend on them -/
+def anyOracles : Oracles := ⟨UC.ascii, fun _ => .error .syntax, fun _ => .error .syntax, fun v u => (v, u)⟩
+
+/-- **writer_state_tracks_config (one record).** From any writer state in which `order` lists
+the keys of `fileConfig` once each, writing a result whose configuration keys are pairwise
+distinct leaves `fileConfig` equal — as a map key ↦ (value, File) — to that configuration,
+whichever of the three paths was taken (nothing to do / walk only / walk and new keys), and
+keeps the state invariant. -/
+theorem writer_state_tracks_config (P : WParams) (w : WState) (r : Res) (hw : WInv w)
+    (hnd : (r.config.map Cfg.key).Nodup) :
+    (∀ k, (Writer.write P w (.result r)).1.fileConfig.get k = cfgGet r.config k) ∧
+    WInv (Writer.write P w (.result r)).1 := by
+  simp only [Writer.write, writeResult]
+  by_cases hneed : needFileConfig w.fileConfig r.config = true
+  · simp only [hneed, ↓reduceIte]
+    obtain ⟨hfc, hw', _⟩ := writeFileConfig_spec anyOracles [] w r.config hw hnd
+    exact ⟨hfc, winv_first hw' false⟩
+  · have hneed' : needFileConfig w.fileConfig r.config = false := by simpa using hneed
+    simp only [hneed', Bool.false_eq_true, ↓reduceIte]
+    exact ⟨noChange_spec _ _ hw.keys_nodup hnd hneed', winv_first hw false⟩
+
+theorem winv_stateAfter (P : WParams) : ∀ (h : List Rec) (w : WState), WInv w →
+    (∀ r, Rec.result r ∈ h → (r.config.map Cfg.key).Nodup) → WInv (Writer.stateAfter P w h) := by
+  intro h
+  induction h with
+  | nil => intro w hw _; exact hw
+  | cons rec rest ih =>
+    intro w hw hnd
+    have hrest : ∀ r, Rec.result r ∈ rest → (r.config.map Cfg.key).Nodup :=
+      fun r hr => hnd r (List.mem_cons_of_mem _ hr)
+    cases rec with
+    | err e => exact ih w hw hrest
+    | unit u => exact ih w hw hrest
+    | result r =>
+      exact ih _ (writer_state_tracks_config P w r hw (hnd r List.mem_cons_self)).2 hrest
+
+theorem stateAfter_append (P : WParams) : ∀ (h1 h2 : List Rec) (w : WState),
+    Writer.stateAfter P w (h1 ++ h2) = Writer.stateAfter P (Writer.stateAfter P w h1) h2 := by
+  intro h1
+  induction h1 with
+  | nil => intro h2 w; rfl
+  | cons r rs ih => intro h2 w; simp only [List.cons_append, Writer.stateAfter]; exact ih h2 _
+
+/-- **writer_state_tracks_config (histories).** After any history of records with pairwise
+distinct keys — additions, changes, deletions, re-additions, file↔internal flips in any order —
+that ends with result `r`, the writer's `fileConfig` is exactly `r`'s configuration. -/
+theorem writer_state_tracks_config_history (P : WParams) (h : List Rec) (r : Res)
+    (hnd : ∀ x, Rec.result x ∈ h ++ [.result r] → (x.config.map Cfg.key).Nodup) (k : Bytes) :
+    (Writer.stateAfter P WState.new (h ++ [.result r])).fileConfig.get k = cfgGet r.config k := by
+  rw [stateAfter_append]
+  have hw := winv_stateAfter P h WState.new winv_new
+    (fun x hx => hnd x (List.mem_append_left _ hx))
+  simp only [Writer.stateAfter]
+  exact (writer_state_tracks_config P _ r hw (hnd r (by simp))).1 k
+
+/-! ## 2. Writer and reader in step -/
+
+theorem finalState_runLines (O : Oracles) (ls : List Bytes) :
+    ∀ (st : RState) (m : CMap), Linked st m →
+      Linked (finalState O st ls) (runLines O st.fileName m st.units (st.line + 1) ls).1 := by
+  induction ls with
+  | nil => intro st m hl; exact hl
+  | cons l ls ih =>
+    intro st m hl
+    obtain ⟨hl', hu, hf, hn, _⟩ := scanLine_refines O st m hl l
+    have := ih (scanLine O st l).1 _ hl'
+    rw [hu, hf, hn] at this
+    simpa [finalState, runLines] using this
+
+theorem wf_recs {O : Oracles} {h : List Rec} (hwf : WFnoCR O h = true) :
+    (∀ r ∈ h, recOKnoCR O r = true) ∧ distinctPairs (unitKeys h) = true := by
+  simp only [WFnoCR, Bool.and_eq_true, List.all_eq_true] at hwf
+  exact hwf
+
+theorem wf_good {O : Oracles} {P : WParams} (hnum : NumOK O P) (fn : Bytes) {h : List Rec}
+    (hwf : WFnoCR O h = true) : (∀ r ∈ h, RecGood O P fn r) ∧ UnitsFresh [] h :=
+  ⟨fun r hr => recGood_of_ok O P fn hnum r ((wf_recs hwf).1 r hr),
+   unitsFresh_of_distinct h [] (fun _ _ => rfl) (wf_recs hwf).2⟩
+
+/-- **writer_reader_inv.** For every well-formed history `h` (hence for every prefix of a
+history): when the C02 model reader has consumed the lines the writer printed for `h`, its
+configuration store satisfies the C02 store invariant and denotes exactly the FILE part of the
+writer's `fileConfig` — reader's map = { k ↦ v | fileConfig k = (v, File = true) } — while
+`fileConfig`, with both kinds of entries, is the configuration of the last result
+(`writer_state_tracks_config_history`) and `order` lists its keys once each. The CR clause of
+`WF` is not needed at the level of lines. -/
+theorem writer_reader_inv (O : Oracles) (P : WParams) (hnum : NumOK O P) (fn : Bytes) (h : List Rec)
+    (hwf : WFnoCR O h = true) :
+    let w := Writer.stateAfter P WState.new h
+    let st := finalState O (RState.zero.reset fn []) (Writer.writeAll P h)
+    WInv w ∧ st.store.Inv ∧ ∀ k, st.store.toMap k = fileOnly (w.fileConfig.get k) := by
+  obtain ⟨hgood, hfresh⟩ := wf_good hnum (RState.zero.reset fn []).fileName hwf
+  have hi := history_inv O P (RState.zero.reset fn []).fileName h WState.new [] [] 1
+    (inv_new O _) hgood hfresh
+  have hl := finalState_runLines O (Writer.writeAll P h) (RState.zero.reset fn []) []
+    (reset_linked RState.zero fn [])
+  refine ⟨hi.winv, hl.inv, fun k => ?_⟩
+  rw [hl.map k]
+  exact hi.link k
+
+/-! ## 3. The round trip -/
+
+theorem readAll_lines (O : Oracles) (fn : Bytes) (ls : List Bytes) (hc : ∀ l ∈ ls, Clean l) :
+    (readAll O fn (render ls)).map aobsRec =
+      ((runLines O (displayName fn) [] [] 1 ls).2.2).map aobsS := by
+  have h := (C02.reader_refines_spec O fn (render ls)).1
+  have e1 : (readAll O fn (render ls)).map aobsRec = ((readAll O fn (render ls)).map Rec.abs).map aobsA := by
+    rw [List.map_map]; exact List.map_congr_left (fun r _ => aobsRec_eq r)
+  rw [e1, h, List.map_map]
+  unfold Spec.Format.read
+  rw [lines_render ls hc, readFrom_eq_runLines]
+  exact List.map_congr_left (fun r _ => (aobsS_eq r).symm)
+
+/-- **roundtrip_history.** For every finite history `h` of results, unit-metadata records and
+syntax errors that is well formed (`WF`) — keys added, changed, deleted, re-added, switched
+between file and internal from one result to the next in any order; any measurement bits
+(zero, ±Inf, NaN, subnormal …), rescaled or not — the C02 model reader applied to the bytes the
+model writer produces delivers exactly `observeWritten h`: the same results in the same order
+with the same name, iteration count, measurements as written and file configuration (as a
+map), the same unit metadata, and nothing else (no error record, no extra record). -/
+theorem roundtrip_history (O : Oracles) (P : WParams) (hnum : NumOK O P) (fn : Bytes) (h : List Rec)
+    (hwf : WF O h = true) :
+    (observeRead (readAll O fn (render (Writer.writeAll P h)))).map Obs.abs =
+      (observeWritten h).map Obs.abs := by
+  simp only [WF, Bool.and_eq_true, Bool.not_eq_true'] at hwf
+  obtain ⟨hwf, hcr⟩ := hwf
+  obtain ⟨hgood, hfresh⟩ := wf_good hnum (displayName fn) hwf
+  have hclean : ∀ l ∈ Writer.writeAll P h, Clean l :=
+    history_clean O P hnum h WState.new (fun k hk => by simp [WState.new] at hk) (wf_recs hwf).1 hcr
+  -- the read-back side: Config lists have distinct keys, so they are maps
+  have hnd := (C02.reader_refines_spec O fn (render (Writer.writeAll P h))).2.1
+  have e1 : (observeRead (readAll O fn (render (Writer.writeAll P h)))).map Obs.abs =
+      (readAll O fn (render (Writer.writeAll P h))).map aobsRec := by
+    unfold observeRead
+    rw [List.map_map]
+    apply List.map_congr_left
+    intro r hr
+    exact obs_abs_rec r (fun res e => hnd res (e ▸ hr))
+  -- the written side
+  have e2 : (observeWritten h).map Obs.abs = (kept h).map aobsRec := by
+    rw [observeWritten_eq, List.map_map]
+    apply List.map_congr_left
+    intro r hr
+    apply obs_abs_rec r
+    intro res e
+    have hm : r ∈ h := (List.mem_filter.1 hr).1
+    have := (wf_recs hwf).1 r hm
+    rw [e] at this
+    simp only [recOKnoCR, resOKnoCR, Bool.and_eq_true] at this
+    exact distinct_nodup _ this.1.1.1.1
+  rw [e1, e2, readAll_lines O fn _ hclean]
+  exact history_lines O P (displayName fn) h WState.new [] [] 1 (inv_new O _) hgood hfresh
+
+/-- Same round trip one level up: at the level of LINES the CR clause is not needed — the
+line-structured specification reader of C02 applied to the printed lines gives `h` back for
+every history satisfying `WFnoCR`. (The CR clause matters only when lines are joined with LF
+and split again: N1.) -/
+theorem roundtrip_lines (O : Oracles) (P : WParams) (hnum : NumOK O P) (fn : Bytes) (h : List Rec)
+    (hwf : WFnoCR O h = true) :
+    ((readFrom O fn [] [] 1 (Writer.writeAll P h)).1).map aobsS = (kept h).map aobsRec := by
+  obtain ⟨hgood, hfresh⟩ := wf_good hnum fn hwf
+  rw [readFrom_eq_runLines]
+  exact history_lines O P fn h WState.new [] [] 1 (inv_new O _) hgood hfresh
+
+/-! ## 4. Internal configuration never reappears as file configuration -/
+
+theorem cfgGet_of_mem {config : List Cfg} (hnd : (config.map Cfg.key).Nodup) {c : Cfg} (hc : c ∈ config) :
+    cfgGet config c.key = some (c.value, c.file) := by
+  induction config with
+  | nil => simp at hc
+  | cons x xs ih =>
+    simp only [List.map_cons, List.nodup_cons] at hnd
+    rw [cfgGet_cons]
+    simp only [List.mem_cons] at hc
+    rcases hc with hc | hc
+    · subst hc; simp
+    · have hne : x.key ≠ c.key := by
+        intro e
+        apply hnd.1
+        rw [e]
+        exact List.mem_map.2 ⟨c, hc, rfl⟩
+      simp only [hne, ↓reduceIte]
+      exact ih hnd.2 hc
+
+/-- **internal_never_file.** In the round trip of a well-formed history, take the i-th record
+written, a result `r`, and the i-th record read back (it exists and is a result `r'`): no key
+that is internal configuration in `r` is file configuration in `r'` — whatever the key was in
+earlier records (file configuration with the same value included: the case repaired by
+40348e7). -/
+theorem internal_never_file (O : Oracles) (P : WParams) (hnum : NumOK O P) (fn : Bytes) (h : List Rec)
+    (hwf : WF O h = true) (i : Nat) (r : Res) (hi : (kept h)[i]? = some (.result r)) :
+    ∃ r', (readAll O fn (render (Writer.writeAll P h)))[i]? = some (.result r') ∧
+      ∀ c ∈ r.config, c.file = false → ∀ c' ∈ r'.config, c'.key = c.key → c'.file = false := by
+  have hrt := roundtrip_history O P hnum fn h hwf
+  have hwf' := hwf
+  simp only [WF, Bool.and_eq_true, Bool.not_eq_true'] at hwf'
+  have hnd := (C02.reader_refines_spec O fn (render (Writer.writeAll P h))).2.1
+  rw [observeWritten_eq] at hrt
+  unfold observeRead at hrt
+  simp only [List.map_map] at hrt
+  have hi' := congrArg (fun l => l[i]?) hrt
+  simp only [List.getElem?_map, hi, Option.map_some, Function.comp_apply] at hi'
+  cases hg : (readAll O fn (render (Writer.writeAll P h)))[i]? with
+  | none => simp [hg] at hi'
+  | some rec' =>
+    simp only [hg, Option.map_some, Option.some.injEq] at hi'
+    have hmem : rec' ∈ readAll O fn (render (Writer.writeAll P h)) := List.mem_of_getElem? hg
+    have hrm : Rec.result r ∈ h := (List.mem_filter.1 (List.mem_of_getElem? hi)).1
+    have hrnd : (r.config.map Cfg.key).Nodup := by
+      have := (wf_recs hwf'.1).1 _ hrm
+      simp only [recOKnoCR, resOKnoCR, Bool.and_eq_true] at this
+      exact distinct_nodup _ this.1.1.1.1
+    cases rec' with
+    | err e => simp [observe, Obs.abs] at hi'
+    | unit u => simp [observe, Obs.abs] at hi'
+    | result r' =>
+      refine ⟨r', rfl, fun c hc hf c' hc' hk => ?_⟩
+      have hnd' := hnd r' hmem
+      have e1 := obs_abs_rec (.result r') (fun res e => by injection e with e; subst e; exact hnd')
+      have e2 := obs_abs_rec (.result r) (fun res e => by injection e with e; subst e; exact hrnd)
+      simp only [Function.comp_apply] at hi'
+      rw [e1, e2] at hi'
+      simp only [aobsRec, AObs.result.injEq] at hi'
+      have hfm := congrFun hi'.2.2.2 c.key
+      unfold fmOf at hfm
+      rw [cfgGet_of_mem hrnd hc, hf, ← hk, cfgGet_of_mem hnd' hc'] at hfm
+      cases hcf : c'.file with
+      | false => rfl
+      | true => rw [hcf] at hfm; simp at hfm
+
+/-! ## 5. Texts -/
+
+/-- **roundtrip_text_partial.** Parsing a text, writing the records and parsing the output
+again gives the same observation stream as the first parse. PARTIAL: the hypothesis
+`WF O (readAll O fn t)` stands for two things —
+(a) `reader_results_WF` (NOT proved): every stream the model reader emits satisfies `WFnoCR`
+    (keys it accepted are `keyOK`, fields it split off are `tokenOK`, values non-empty without
+    leading blank, unit metadata distinct …); the converse direction of `C01Tokens.lean`.
+    The check run evaluates `WFnoCR` on every reader-produced history (kind=text/filter): a
+    counterexample would surface as an S-layer hit;
+(b) `NoCRValue t`: no file-configuration value of the parsed stream ends in CR — without it the
+    statement is false on the current code (known finding N1, witness `k: v\r\r\n`). -/
+theorem roundtrip_text_partial (O : Oracles) (P : WParams) (hnum : NumOK O P) (fn fn' : Bytes) (t : Bytes)
+    (hwf : WF O (readAll O fn t) = true) :
+    (observeRead (readAll O fn' (render (Writer.writeAll P (readAll O fn t))))).map Obs.abs =
+      (observeWritten (readAll O fn t)).map Obs.abs :=
+  roundtrip_history O P hnum fn' (readAll O fn t) hwf
+
+/-! ## 6. Non-vacuity -/
+
+/-- a key `a` (97), a value `1`, a measurement `5 u` -/
+def exVal : Val := { value := 5, unit := [117], origValue := 0, origUnit := [] }
+def exRes (cfg : List Cfg) : Rec :=
+  .result { config := cfg, name := [88], iters := 1, values := [exVal], fileName := [], line := 0 }
+
+/-- a four-record history with delete, re-add and file→internal→file flips -/
+def exHistory : List Rec :=
+  [ exRes [⟨[97], [49], true⟩, ⟨[98], [50], true⟩, ⟨[46, 102], [120], false⟩],
+    exRes [⟨[97], [49], false⟩],                       -- a: file → internal; b, .f deleted
+    .unit ⟨[117], [107], [117], [118], [], 0⟩,
+    exRes [⟨[98], [51], true⟩, ⟨[97], [49], true⟩],   -- b re-added; a: internal → file
+    exRes [] ]
+
+example : WF anyOracles exHistory = true := by decide
+
+/-- what the model writer prints for it (number text: every value prints as `5`) -/
+example :
+    Writer.writeAll ⟨fun _ => [53]⟩ exHistory =
+      [[97, 58, 32, 49], [98, 58, 32, 50], [],
+       [66, 101, 110, 99, 104, 109, 97, 114, 107, 88, 32, 49, 32, 53, 32, 117],
+       [], [97, 58], [98, 58], [46, 102, 58], [],
+       [66, 101, 110, 99, 104, 109, 97, 114, 107, 88, 32, 49, 32, 53, 32, 117],
+       [85, 110, 105, 116, 32, 117, 32, 107, 61, 118],
+       [], [97, 58, 32, 49], [98, 58, 32, 51], [],
+       [66, 101, 110, 99, 104, 109, 97, 114, 107, 88, 32, 49, 32, 53, 32, 117],
+       [], [97, 58], [98, 58], [],
+       [66, 101, 110, 99, 104, 109, 97, 114, 107, 88, 32, 49, 32, 53, 32, 117]] := by
+  decide
+
+/-- N1: the CR clause of `WF` is what fails on `k: v\r` -/
+example :
+    WFnoCR anyOracles [exRes [⟨[107], [118, 13], true⟩]] = true ∧
+    WF anyOracles [exRes [⟨[107], [118, 13], true⟩]] = false := by decide
 
 end C01
